@@ -19,7 +19,9 @@ func keepTxGuards(g q.Cond) bool {
 	return !strings.Contains(s, "p0") && !strings.Contains(s, "len(") && !strings.Contains(s, "#1") && !strings.Contains(s, "#0") && strings.Contains(s, "p1.")
 }
 
-func c01(c *q.Ctx) {
+// utxoInverse (K6): doTxInternal <-> undoTxInternal are exact inverses on batch rows, UTXO cache, balances and
+// total (shared by C01 and C03: a cache entry that survives an undo is an output admission believes unspent).
+func utxoInverse(c *q.Ctx) {
 	const st = "bcs/ledger/xledger/state::"
 	const xm = "bcs/ledger/xledger/state/xmodel::"
 	do := c.Fn(st + "(*State).doTxInternal")
@@ -53,9 +55,12 @@ func c01(c *q.Ctx) {
 		c.StoreIs(do, "UtxoItem.Amount", "big.NewInt(0){SetBytes(p1.TxOutputs[].Amount)}", 1, "a created output carries the transaction's amount")
 		c.Gate(do, "XModel.DoTx", q.ToSuccess(), q.Opt{})
 	}
-	feeInverse(c)
+}
 
-	// ext (key/value) model: updateExtUtxo <-> UndoTx
+// xmodelDoUndo (K6): updateExtUtxo <-> XModel.UndoTx on the live (ZU) and recycle (ZD) tables (shared by C01 and
+// C18: the snapshot walk starts from what these tables say).
+func xmodelDoUndo(c *q.Ctx) {
+	const xm = "bcs/ledger/xledger/state/xmodel::"
 	up := c.Fn(xm + "(*XModel).updateExtUtxo")
 	un := c.Fn(xm + "(*XModel).UndoTx")
 	zu := "append(\"ZU\",xmodel.makeRawKey(p1.TxOutputsExt[].Bucket,p1.TxOutputsExt[].Key))"
@@ -90,6 +95,17 @@ func c01(c *q.Ctx) {
 		c.OnlyUnder(un, q.ToCall("Batch.Delete"), []q.Cond{notTransient}, "the transient bucket is never persisted")
 		c.Gate(un, "XModel.fetchVersionedData", q.ToSuccess(), q.Opt{K1Only: true})
 	}
+
+}
+
+func c01(c *q.Ctx) {
+	const st = "bcs/ledger/xledger/state::"
+	utxoInverse(c)
+	feeInverse(c)
+	feeEveryTx(c)
+	xmodelDoUndo(c)
+	poolGraph(c)
+	poolRollback(c)
 
 	// ---- block-level operations: one batch per block that also moves the pointer
 	ub := c.Fn(st + "(*State).procUndoBlkForWalk")
@@ -172,6 +188,38 @@ func c01(c *q.Ctx) {
 		c.ArgIs(wk, "State.procUndoBlkForWalk", 1, "*FindUndoAndTodoBlocks(*)#0", 1, "undo list from the ledger")
 		c.ArgIs(wk, "State.procUndoBlkForWalk", 2, "*RollBackUnconfirmedTx(p0)#0", 1, "transactions already undone with the pool are not undone twice")
 		c.ArgIs(wk, "State.procTodoBlkForWalk", 1, "*FindUndoAndTodoBlocks(*)#1", 1, "todo list from the ledger")
+	}
+}
+
+// feeEveryTx: on the three play paths the fee of EVERY transaction of the block is materialised (and on the
+// undo path removed) - no class of transaction is skipped, so producer, validator and replayer agree
+// (shared by C01, C02 and C13).
+func feeEveryTx(c *q.Ctx) {
+	const st = "bcs/ledger/xledger/state::"
+	class := func(g q.Cond) bool {
+		return strings.Contains(g.Canon, "Coinbase") || strings.Contains(g.Canon, "Autogen") || strings.Contains(g.Canon, "unconfirm") || strings.Contains(g.Canon, "processUnconfirmTxs(") && strings.Contains(g.Canon, "[")
+	}
+	for fn, tx := range map[string]string{
+		st + "(*State).PlayForMiner":       "*QueryBlock(*,p1)#0.Transactions[]",
+		st + "(*State).PlayAndRepost":      "*QueryBlock(*,p1)#0.Transactions[]",
+		st + "(*State).procTodoBlkForWalk": "p1[#down].Transactions[]",
+	} {
+		if f := c.Fn(fn); f != nil {
+			c.Effect(f, q.Eff{Spec: "State.payFee", Arg: 0, Glob: tx, Exact: true, Keep: class, Why: "the fee of every transaction of the block is paid to the proposer, whatever its class", Rule: "K7"})
+		}
+	}
+	// path based, over the classes a play path may branch on (disjunctions and early continues included)
+	for fn, blk := range map[string]string{
+		st + "(*State).PlayForMiner":       "ledger.(*Ledger).QueryBlock(p0.sctx.Ledger,p1)#0",
+		st + "(*State).PlayAndRepost":      "ledger.(*Ledger).QueryBlock(p0.sctx.Ledger,p1)#0",
+		st + "(*State).procTodoBlkForWalk": "p1[#down]",
+	} {
+		if f := c.Fn(fn); f != nil {
+			c.EveryClass(f, []string{blk + ".Transactions[].Coinbase", blk + ".Transactions[].Autogen"}, []string{"coinbase", "autogen"}, "State.payFee", "(#i < len("+blk+".Transactions))", "the fee of every transaction of the block is paid, whatever its class")
+		}
+	}
+	if f := c.Fn(st + "(*State).procUndoBlkForWalk"); f != nil {
+		c.Effect(f, q.Eff{Spec: "State.undoPayFee", Arg: 0, Glob: "p1[].Transactions[#down]", Exact: true, Keep: class, Why: "and taken back for every transaction of an undone block", Rule: "K7"})
 	}
 }
 
